@@ -301,7 +301,7 @@ func (ns *Namespace) AddAlias(aliasType string, aliasName string, alias string) 
 	if aliasType == "const" {
 		ns.Aliases[aliasType][alias] = aliasName
 	} else {
-		ns.Aliases[aliasType][strings.ToLower(alias)] = aliasName
+		ns.Aliases[aliasType][asciiLower(alias)] = aliasName
 	}
 }
 
@@ -381,11 +381,11 @@ func (ns *Namespace) ResolveAlias(nameNode ast.Vertex, aliasType string) (string
 	firstPartStr := string(nameParts[0].(*ast.NamePart).Value)
 
 	if len(nameParts) > 1 { // resolve aliases for qualified names, always against class alias type
-		firstPartStr = strings.ToLower(firstPartStr)
+		firstPartStr = asciiLower(firstPartStr)
 		aliasType = ""
 	} else {
 		if aliasType != "const" { // constants are case-sensitive
-			firstPartStr = strings.ToLower(firstPartStr)
+			firstPartStr = asciiLower(firstPartStr)
 		}
 	}
 
@@ -395,6 +395,18 @@ func (ns *Namespace) ResolveAlias(nameNode ast.Vertex, aliasType string) (string
 	}
 
 	return aliasName, nil
+}
+
+// asciiLower folds A-Z only: PHP compares names byte-wise after an ASCII-only lower-casing, so bytes >= 0x80 keep
+// their value (strings.ToLower folds `Ä` to `ä` and maps every invalid UTF-8 byte to U+FFFD, making different names equal)
+func asciiLower(s string) string {
+	b := []byte(s)
+	for i, c := range b {
+		if 'A' <= c && c <= 'Z' {
+			b[i] = c + ('a' - 'A')
+		}
+	}
+	return string(b)
 }
 
 func concatNameParts(parts ...[]ast.Vertex) string {
